@@ -482,11 +482,11 @@ EXTRA = [
     M('M-C12c-delete-no-age', 'mapproxy/cache/mbtiles.py', """"DELETE FROM tiles WHERE (zoom_level = ? AND last_modified < datetime(?, 'unixepoch', 'localtime'))",""",
       """"DELETE FROM tiles WHERE (zoom_level = ? AND last_modified > datetime(?, 'unixepoch', 'localtime'))",""", 'C12.c'),
     M('M-C12d-simple-without-complete', 'mapproxy/seed/cleanup.py', """        if task.complete_extent:
-            if callable(getattr(task.tile_manager.cache, 'level_location', None)):""", """        if True:
-            if callable(getattr(task.tile_manager.cache, 'level_location', None)):""", 'C12.d'),
+            if has_level_location(task.tile_manager.cache, task.levels):""", """        if True:
+            if has_level_location(task.tile_manager.cache, task.levels):""", 'C12.d'),
     E('E-C12d-nested-if', 'mapproxy/seed/cleanup.py', """        if task.complete_extent:
-            if callable(getattr(task.tile_manager.cache, 'level_location', None)):""", """        if task.complete_extent and task.levels is not None:
-            if callable(getattr(task.tile_manager.cache, 'level_location', None)):""", 'additional conjunct'),
+            if has_level_location(task.tile_manager.cache, task.levels):""", """        if task.complete_extent and task.levels is not None:
+            if has_level_location(task.tile_manager.cache, task.levels):""", 'additional conjunct'),
     M('M-C12d-walker-not-stale', 'mapproxy/seed/cleanup.py', "tile_walker = TileWalker(task, tile_worker_pool, handle_stale=True, handle_all=handle_all,",
       "tile_walker = TileWalker(task, tile_worker_pool, handle_stale=False, handle_all=True,", 'C12.d'),
     M('M-C12d-remove-in-creator', 'mapproxy/cache/tile.py', """                if not source:
@@ -925,10 +925,10 @@ EXTRA = [
         return False""", 'C13.a'),
     M('M-C13b-cached-threshold', 'mapproxy/cache/tile.py', """            from mapproxy.seed.config import before_timestamp_from_options
             return before_timestamp_from_options(self._refresh_before)
-        return self._expire_timestamp""", """            from mapproxy.seed.config import before_timestamp_from_options
-            if self._expire_timestamp is None:
-                self._expire_timestamp = before_timestamp_from_options(self._refresh_before)
-        return self._expire_timestamp""", 'C13.b'),
+        return None""", """            from mapproxy.seed.config import before_timestamp_from_options
+            self._expire_timestamp = before_timestamp_from_options(self._refresh_before)
+            return self._expire_timestamp
+        return None""", 'C13.b'),
     M('M-C13b-precedence', 'mapproxy/seed/config.py', "    if 'time' in conf:\n        try:\n            return timestamp_from_isodate(conf['time'])",
       "    if 'time' in conf and 'mtime' not in conf:\n        try:\n            return timestamp_from_isodate(conf['time'])", 'C13.b'),
     M('M-C13c-store-before-check', 'mapproxy/cache/tile.py', """                if not source:
